@@ -184,6 +184,20 @@ class Interp:
             name = self.fresh_var(o)
             em.code("%s = %s(%d)" % (name, op["cls"], op["n"]))
             return True
+        if k == "bulk_new":
+            # many objects constructed in a loop and kept in a list; one of them is fetched afterwards
+            cls = op["cls"]
+            if cls not in self.feats:
+                return False
+            ln = "bl%d" % self.n
+            self.n += 1
+            n_ = op["n"]
+            em.code("%s: [%s...] = []\nfrom 0 to %d, bi {\n\t%s.push(%s(bi))\n}" % (ln, cls, n_, ln, cls))
+            objs = [self.new_obj(cls, i) for i in range(n_)]
+            self.lists[ln] = (cls, objs)
+            name = self.fresh_var(objs[op["i"] % n_])
+            em.code("%s = %s[%d]" % (name, ln, op["i"] % n_))
+            return True
         if k == "churn":
             # objects that die at once: a helper constructs one, calls a method on it and drops it
             cls = op["cls"]
@@ -508,6 +522,8 @@ def gen_op(rng, it):
         return {"op": "new", "cls": rng.choice([c[0] for c in it.classes]), "n": rng.range(0, 9)}
     if rng.chance(1, 8):
         return {"op": "churn", "cls": rng.choice([c[0] for c in it.classes]), "n": rng.range(0, 9)}
+    if rng.chance(1, 20) and len(names) < 5:
+        return {"op": "bulk_new", "cls": rng.choice([c[0] for c in it.classes]), "n": rng.choice([9, 17, 40]), "i": rng.below(40)}
     a = rng.choice(names)
     same = [x for x in names if it.vars[x].cls == it.vars[a].cls]
     kind = rng.weighted([("call", 10), ("alias", 2), ("rebind", 1), ("take", 1), ("setfield", 2), ("opfield", 2), ("sfield", 1),
